@@ -83,6 +83,7 @@ type replayFile struct {
 	GOARCH     string          `json:"goarch,omitempty"`
 	GOMAXPROCS int             `json:"gomaxprocs,omitempty"`
 	RaceBuild  bool            `json:"race_build,omitempty"`
+	AltBuild   bool            `json:"alt_build,omitempty"`
 	Case       json.RawMessage `json:"case"`
 }
 
@@ -245,7 +246,7 @@ func (c *Check[C]) Execute(t *testing.T) {
 			// second run of a shard whose process was killed by the runtime: leave the case on disk before running it
 			raw, _ := json.Marshal(v)
 			rf := replayFile{Property: c.Property(), Check: c.Name, Case: raw, GOARCH: runtime.GOARCH, GOMAXPROCS: runtime.GOMAXPROCS(0),
-				RaceBuild: os.Getenv("VERIF_RACE_BUILD") == "1", Class: "process-killed", Error: "the process was killed by the Go runtime (fatal error) while it ran this case"}
+				RaceBuild: os.Getenv("VERIF_RACE_BUILD") == "1", AltBuild: os.Getenv("VERIF_ALT_BUILD") == "1", Class: "process-killed", Error: "the process was killed by the Go runtime (fatal error) while it ran this case"}
 			out, _ := json.MarshalIndent(rf, "", " ")
 			_ = os.WriteFile(persist, append(out, '\n'), 0o644)
 		}
@@ -328,7 +329,7 @@ func writeReplay(property, check string, v any, err error) string {
 	}
 	_ = os.MkdirAll(dir, 0o755)
 	raw, _ := json.Marshal(v)
-	rf := replayFile{Property: property, Check: check, Case: raw, GOARCH: runtime.GOARCH, GOMAXPROCS: runtime.GOMAXPROCS(0), RaceBuild: os.Getenv("VERIF_RACE_BUILD") == "1"}
+	rf := replayFile{Property: property, Check: check, Case: raw, GOARCH: runtime.GOARCH, GOMAXPROCS: runtime.GOMAXPROCS(0), RaceBuild: os.Getenv("VERIF_RACE_BUILD") == "1", AltBuild: os.Getenv("VERIF_ALT_BUILD") == "1"}
 	if err != nil {
 		rf.Error = err.Error()
 		var f *Failure
